@@ -290,6 +290,9 @@ pub enum Op {
     JoinSpawn,
     /// ... and wait for the oldest such helper and take its result
     JoinCollect,
+    /// move the oldest kept join future to the back of the line (so that the ops above reach
+    /// the others)
+    JoinRotate,
 
     // ---- handle manipulation
     Clone { h: Slot, to: Slot },
